@@ -11,7 +11,7 @@ export GOFLAGS=-mod=mod GOPROXY=off GOSUMDB=off GOTOOLCHAIN=local
 ROOT=/tmp/benign_par
 rm -rf "$ROOT"; git -C /repo worktree prune; mkdir -p "$ROOT"
 find "$SRC" -name '*.diff' | sort > "$ROOT/list"
-IDS="C01 C02 C03 C04 C05 C06 C07 C08 C09 C10 C11 C12 C13 C14 C15 C16 C17 C18 C19 C20"
+IDS="${BENIGN_IDS:-C01 C02 C03 C04 C05 C06 C07 C08 C09 C10 C11 C12 C13 C14 C15 C16 C17 C18 C19 C20}"   # BENIGN_IDS="C03 C12" restricts the checks
 worker() {
   w=$1
   RW="$ROOT/repo$w"; HW="$ROOT/harness$w"; VD="$ROOT/verif$w"
